@@ -386,16 +386,13 @@ func (idx *Index) FitToBounds(bounds *dvid.OptionalBounds) error {
 	if bounds == nil {
 		return nil
 	}
+	// the blocks of an index are a map (no order to rely on): every block is tested
 	for zyx := range idx.Blocks {
 		x, y, z := DecodeBlockIndex(zyx)
 		blockPt := dvid.ChunkPoint3d{x, y, z}
-		if bounds.BeyondZ(blockPt) {
-			break
-		}
 		if bounds.Outside(blockPt) {
-			continue
+			delete(idx.Blocks, zyx)
 		}
-		delete(idx.Blocks, zyx)
 	}
 	return nil
 }
